@@ -142,12 +142,47 @@ def all_matches(t, loops, sid):
     return [c for x in level for c in ctx_gen.live_children(x) if c.type == 'seg' and c.seg_data.get_seg_id() == sid]
 
 
+def all_paths(t):
+    """every (loop id chain, segment id or None) that addresses some live node below t, through ANY repeat"""
+    out = []
+
+    def walk(x, loops, depth):
+        for c in ctx_gen.live_children(x):
+            if c.type == 'seg':
+                k = (tuple(loops), c.seg_data.get_seg_id())
+                if k not in out:
+                    out.append(k)
+            else:
+                k = (tuple(loops + [c.id]), None)
+                if k not in out:
+                    out.append(k)
+                if depth < 10:
+                    walk(c, loops + [c.id], depth + 1)
+    walk(t, [], 0)
+    return [(list(a), b) for (a, b) in out]
+
+
 def deep_query_law(report, rng, t, inp):
     cands = []
-    for loops, sg, _n in first_instances(t):
-        if len(loops) >= 2 or (len(loops) >= 1 and sg is not None):
-            cands.append((loops, None if sg is None else sg.seg_data.get_seg_id()))
+    for loops, sid in all_paths(t):
+        if len(loops) >= 2 or (len(loops) >= 1 and sid is not None):
+            cands.append((loops, sid))
     rng.shuffle(cands)
+    # take a segment away from the FIRST repeat of a repeated loop, so that only later repeats hold it
+    for loops, sid in cands:
+        if sid is None or not loops:
+            continue
+        reps = all_matches(t, loops, None)
+        if len(reps) >= 2:
+            holders = [c for c in ctx_gen.live_children(reps[0]) if c.type == 'seg' and c.seg_data.get_seg_id() == sid]
+            first_child = ctx_gen.live_children(reps[0])[:1]
+            later = [c for r_ in reps[1:] for c in ctx_gen.live_children(r_) if c.type == 'seg' and c.seg_data.get_seg_id() == sid]
+            if holders and later and holders[0] is not (first_child[0] if first_child else None):
+                for hnode in holders:
+                    if hnode is not first_child[0]:
+                        hnode.delete()
+                report.count('law:deep-path:first-repeat-emptied')
+                break
     for loops, sid in cands[:12]:
         p = '/'.join(loops + ([sid] if sid else []))
         want = all_matches(t, loops, sid)
@@ -160,6 +195,11 @@ def deep_query_law(report, rng, t, inp):
         if c != len(want) or len(got) != len(want) or any(a is not b for a, b in zip(got, want)):
             report.fail('C10:deep-path-misses-repeats', 'path %r: count %d, select %d nodes; the tree holds %d matching nodes' % (p, c, len(got), len(want)),
                         dict(inp, path=p))
+        # ... and exists / first answer the same question (also when the first repeat of a loop does not hold the segment)
+        e, f = t.exists(p), t.first(p)
+        if e != (len(want) > 0) or (f is None) != (len(want) == 0) or (f is not None and f is not want[0]):
+            report.fail('C10:deep-path-exists-first', 'path %r: exists %r, first %s; the tree holds %d matching nodes' % (
+                p, e, 'None' if f is None else 'a node', len(want)), dict(inp, path=p))
 
 
 def laws(report, rng, t, inp):
